@@ -185,14 +185,15 @@ def seq_bfs_case(p, res):
             self.sink = Sink()
             self.model = cls()
             self.ref = []
+            self.stage = {sid: Rec(sid, self.sink) for sid in (1, 2, 3)}      # ONE object per stage id: adding s1 twice puts the same object in twice
     ops = []
     for sid in (1, 2, 3):
         def add(s, sid=sid):
-            r = s.model.add_step(Rec(sid, s.sink))
+            r = s.model.add_step(s.stage[sid])
             s.ref.append(sid)
             return ("add", r is s.model)
         ops.append((f"add_step(s{sid})", add))
-    for idx in (0, 1, 5):
+    for idx in (0, 1, 2, 5):
         def rem(s, idx=idx):
             ok = 0 <= idx < len(s.ref)
             try:
